@@ -194,12 +194,12 @@ Definition val_ok (a : ann) (v : value) : Prop :=
 Definition res_ok (a : ann) (r : res value) : Prop :=
   match r with Ok v => val_ok a v | Err EValue => False | Err _ => True end.
 
-Definition tmp_ann (w : Z) (ex mi : bool) : ann :=
-  {| aw := w; aex := ex; asig := true; acv := None; amut := true; astr := None; aint := mi; aovf := false |}.
+Definition tmp_ann (w : Z) (ex mi bo : bool) : ann :=
+  {| aw := w; aex := ex; asig := true; acv := None; amut := true; astr := None; aint := mi; aovf := false; abool := bo |}.
 
 Definition env_ok (E : tenv) (st : state) : Prop :=
-  (forall i w ex mi, ttmp E i = Some (w, ex, mi) ->
-     0 < w /\ (ex = false -> mi = true) /\ forall v, tmpv st i = Some v -> val_ok (tmp_ann w ex mi) v) /\
+  (forall i w ex mi bo, ttmp E i = Some (w, ex, mi, bo) ->
+     0 < w /\ (ex = false -> mi = true) /\ forall v, tmpv st i = Some v -> val_ok (tmp_ann w ex mi bo) v) /\
   (forall i w, tloop E i = Some w -> 0 < w /\ forall z, loopv st i = Some z -> 0 <= z < 2 ^ w).
 
 Lemma res_ok_bind a r f b :
@@ -255,7 +255,9 @@ Lemma unify_spec la ra ifx cl cr : unify la ra ifx = Some (cl, cr) ->
   | false, false => True
   end.
 Proof.
-  unfold unify. destruct (aex la), (aex ra).
+  unfold unify. destruct (ifx && (aw la =? aw ra)) eqn:Q.
+  { apply andb_prop in Q as [_ Q]. intros _. destruct (aex la), (aex ra); auto; lia. }
+  destruct (aex la), (aex ra).
   - destruct (aw la =? aw ra) eqn:E; [lia|discriminate].
   - destruct (aw la <? aw ra) eqn:E; [discriminate|lia].
   - destruct (aw ra <? aw la) eqn:E; [discriminate|lia].
@@ -524,9 +526,13 @@ Lemma rule_if_sound rc la ra r cl cr :
   ann_inv r /\ (forall v, val_ok la v -> val_ok r v) /\ (forall v, val_ok ra v -> val_ok r v).
 Proof.
   intros H Ila Ira Ola Ora. unfold rule_if in H.
-  destruct (is_struct rc || is_struct la || is_struct ra); [discriminate|].
+  destruct (is_struct rc || is_struct la || is_struct ra); [discriminate|]. cbn zeta in H. cbn [andb] in H.
+  destruct ((abool la || abool ra) && negb (aex la && aex ra && (aw la =? aw ra))) eqn:S13; [discriminate|].
+  assert (U0 : (if abool la || abool ra then Some (None, None) else unify la ra true) = unify la ra true).
+  { destruct (abool la || abool ra); [|reflexivity]. cbn [andb] in S13. apply negb_false_iff in S13.
+    apply andb_prop in S13 as [S13 Q]. unfold unify. rewrite Q. reflexivity. }
+  rewrite U0 in H. clear U0 S13.
   destruct (unify la ra true) as [[cl' cr']|] eqn:U; [|discriminate].
-  cbn [andb] in H.
   destruct (negb (aex la) && negb (aex ra) && (aw la <? aw ra)) eqn:S5; [discriminate|].
   destruct (negb (eqb (aex la) (aex ra)) &&
             negb (aw match cl' with Some c => enf_ann c la | None => la end =?
@@ -537,17 +543,17 @@ Proof.
   assert (HW : let w := aw match cl' with Some c => enf_ann c la | None => la end in
                0 < w /\ (aex la = true -> w = aw la) /\ (aex ra = true -> w = aw ra) /\
                (aex la = false -> aw la <= w) /\ (aex ra = false -> aw ra <= w)).
-  { cbn zeta. destruct (aex la) eqn:El, (aex ra) eqn:Er; cbn [negb andb eqb] in *.
-    - destruct (aw la =? aw ra) eqn:E; [|discriminate]. injection U as <- <-. repeat split; auto; try discriminate; lia.
+  { cbn zeta. cbn [andb] in U. destruct (aw la =? aw ra) eqn:Q.
+    { injection U as <- <-. repeat split; auto; intros; lia. }
+    destruct (aex la) eqn:El, (aex ra) eqn:Er; cbn [negb andb eqb] in *.
+    - discriminate.
     - destruct (aw la <? aw ra) eqn:E; [discriminate|]. injection U as <- <-. repeat split; auto; try discriminate; lia.
     - destruct (aw ra <? aw la) eqn:E; [discriminate|]. injection U as <- <-.
       rewrite aw_enf in *. rewrite El in *. cbn [negb] in *. rewrite andb_true_r in *.
       destruct (amut la); repeat split; auto; try discriminate; lia.
-    - destruct (aw la =? aw ra) eqn:E.
-      + injection U as <- <-. repeat split; auto; try discriminate; lia.
-      + destruct (aw ra <=? aw la) eqn:E2.
-        * injection U as <- <-. rewrite aw_enf. destruct (amut la && negb (aex la)); repeat split; auto; try discriminate; lia.
-        * lia. }
+    - destruct (aw ra <=? aw la) eqn:E2.
+      + injection U as <- <-. rewrite aw_enf. destruct (amut la && negb (aex la)); repeat split; auto; try discriminate; lia.
+      + lia. }
   cbn zeta in HW. set (w := aw match cl' with Some c => enf_ann c la | None => la end) in *.
   destruct HW as (Pw & W1 & W2 & W3 & W4).
   split; [|split].
@@ -769,8 +775,8 @@ Qed.
 Lemma sound_tmp i : sound_at (ETmp i).
 Proof.
   intros E st r0 l Htc Hcf [Ht _]. cbn [tc] in Htc. cbn [eval].
-  destruct (ttmp E i) as [[[w ex] mi]|] eqn:T; [|discriminate]. injection Htc as <- <-.
-  destruct (Ht i w ex mi T) as (Pw & Hm & Hv). split.
+  destruct (ttmp E i) as [[[[w ex] mi] bo]|] eqn:T; [|discriminate]. injection Htc as <- <-.
+  destruct (Ht i w ex mi bo T) as (Pw & Hm & Hv). split.
   - unfold ann_inv; cbn. repeat split; auto; discriminate.
   - destruct (tmpv st i) as [v|] eqn:V; cbn; [apply Hv; reflexivity|exact I].
 Qed.
@@ -1120,15 +1126,15 @@ Proof. intros V. cbn [spec_setitem]. rewrite V. cbn. eauto. Qed.
 
 Lemma env_ok_set_tmp E st i v R :
   env_ok E st -> ann_inv R -> aovf R = false -> val_ok R v ->
-  (forall w ex mi, ttmp E i = Some (w, ex, mi) -> w = aw R /\ ex = aex R /\ mi = aint R) ->
+  (forall w ex mi bo, ttmp E i = Some (w, ex, mi, bo) -> w = aw R /\ ex = aex R /\ mi = aint R) ->
   forall st0, tmpv st0 = tmpv st -> loopv st0 = loopv st ->
-  env_ok (set_ttmp E i (aw R, aex R, aint R)) (set_tmp st0 i v).
+  env_ok (set_ttmp E i (aw R, aex R, aint R, abool R)) (set_tmp st0 i v).
 Proof.
   intros [H1 H2] (Pr & I2 & _) Ov Hv Hsame st0 Ht Hl. split.
-  - intros j w ex mi. cbn. unfold upd_t, upd. destruct (Nat.eqb j i) eqn:J.
-    + intros [= <- <- <-]. split; [exact Pr|]. split; [exact I2|]. intros v' [= <-].
+  - intros j w ex mi bo. cbn. unfold upd_t, upd. destruct (Nat.eqb j i) eqn:J.
+    + intros [= <- <- <- <-]. split; [exact Pr|]. split; [exact I2|]. intros v' [= <-].
       destruct v as [n u|z]; cbn in *; [tauto|]. intuition; discriminate.
-    + intros T. rewrite Ht. apply (H1 j w ex mi T).
+    + intros T. rewrite Ht. apply (H1 j w ex mi bo T).
   - intros j w T. cbn in *. rewrite Hl. apply (H2 j w T).
 Qed.
 
@@ -1144,12 +1150,12 @@ Proof.
     destruct (tc_sound_gen e E st R lr Te Hce Henv) as [IR RR].
     cbn [exec_assign]. destruct (eval (tsig E) st e) as [v|er]; cbn [bind fst snd]; [|destruct er; cbn in *; auto].
     cbn in RR. cbn [stmt_res_ok].
-    destruct (ttmp E i) as [[[w ex] mi]|] eqn:T.
+    destruct (ttmp E i) as [[[[w ex] mi] bo]|] eqn:T.
     - destruct (negb (w =? aw R)) eqn:C1; [discriminate|].
       destruct (negb (eqb ex (aex R) && eqb mi (aint R))) eqn:C2; [discriminate|]. injection H as <- _.
       apply negb_false_iff in C2. apply andb_prop in C2 as [C2 C3]. apply eqb_prop in C2, C3.
-      eapply env_ok_set_tmp; eauto. intros w' ex' mi' T'. rewrite T in T'. injection T' as <- <- <-. repeat split; auto. lia.
-    - injection H as <- _. eapply env_ok_set_tmp; eauto. intros w' ex' mi' T'. rewrite T in T'. discriminate. }
+      eapply env_ok_set_tmp; eauto. intros w' ex' mi' bo' T'. rewrite T in T'. injection T' as <- <- <- <-. repeat split; auto. lia.
+    - injection H as <- _. eapply env_ok_set_tmp; eauto. intros w' ex' mi' bo' T'. rewrite T in T'. discriminate. }
   all: destruct (tc_assign_sig E _ e E' ns H ltac:(intros i; discriminate)) as (le & [L ll] & [R lr] & Hle & Tl & Te & -> & Ov & Hc);
     cbn [fst] in *; cbn [lhs_expr] in Hle; injection Hle as <-;
     destruct (tc_sound_gen e E st R lr Te Hce Henv) as [IR RR]; pose proof IR as (PR & _).
@@ -1232,12 +1238,14 @@ Qed.
 Theorem tc_complete_ifexp chk E c a b rc ra rb :
   tc chk E c = Some rc -> tc chk E a = Some ra -> tc chk E b = Some rb ->
   aex (fst ra) = true -> aex (fst rb) = true -> aw (fst ra) <> aw (fst rb) ->
+  abool (fst ra) || abool (fst rb) = false ->      (* neither branch is a bare comparison (rdt.Bool): the code skips the check then *)
   tc chk E (EIf c a b) = None.
 Proof.
-  intros Tc Ta Tb Ea Eb Hw. cbn [tc]. rewrite Tc, Ta, Tb.
+  intros Tc Ta Tb Ea Eb Hw Hb. cbn [tc]. rewrite Tc, Ta, Tb.
   destruct (negb (okc chk rc && okc chk ra && okc chk rb)); [reflexivity|].
   unfold rule_if. destruct (is_struct (fst rc) || is_struct (fst ra) || is_struct (fst rb)); [reflexivity|].
-  unfold unify. rewrite Ea, Eb. destruct (aw (fst ra) =? aw (fst rb)) eqn:C; [lia|reflexivity].
+  cbn zeta. rewrite Hb. rewrite andb_false_r. cbn [andb].
+  unfold unify. rewrite Ea, Eb. destruct (aw (fst ra) =? aw (fst rb)) eqn:C; [lia|]. cbn [andb]. reflexivity.
 Qed.
 
 Theorem tc_complete_assign chk E l e le rl r :
